@@ -7,7 +7,7 @@ CHECKS = [
         property_id="C13",
         text="Bounded symbolic model checking of the real GroupedList methods: from an arbitrary pre-state satisfying the partition invariant (<=3 groups, <=6 values, symbolic pairwise-distinct members plus sentinels) one real operation with unconstrained symbolic arguments is executed on every feasible path; z3 proves invariant, agreement with a reference model and lookup consistency on each path. One inductive step from any valid state covers histories of any length within the shape bound; constructors and depth-2/3 histories cross-check reachability.",
         design_ref="DESIGN.md 6/C13",
-        note="Valid operation = the method's own assertions plus distinctness of new keys; CPython dict/list compare equal-hash keys with ==; no float-NaN members; shapes beyond 6 values are outside the claim.",
+        note="Valid operation = the method's own assertions plus distinctness of new keys; CPython dict/list compare equal-hash keys with ==; no float-NaN members; shapes beyond 6 values are outside the claim. Float NaN (numpy.nan) members; lists derived by copy/sort/sort_by and the caller's dict are checked for aliasing after edits.",
         technique=TECH,
     ),
 
@@ -44,7 +44,7 @@ CHECKS = [
         property_id="C09",
         text="Bounded symbolic model checking of the base discretizers' min_freq contract: real OrdinalDiscretizer.fit (every bucket >= min_freq of the rows unless one remains, NaN separate) for symbolic min_freq in (0,0.5]; real find_quantiles (strictly increasing observed boundaries then inf, every value with count >= len/q is a boundary, no bucket free of frequent values above 2.5*len/q rows); real CategoricalDiscretizer.fit (a value is in the default group iff rarer than min_freq, NaN separate); complete QuantitativeDiscretizer/Discretizer fits (every bucket >= min_freq/2 unless one remains).",
         design_ref="DESIGN.md 6/C09",
-        note="Quantitative claim is stated through q = round(1/min_freq) in 2..10; frequencies compared as one float division (F3/F4). A fitted bucket that holds no training row counts as a bucket with 0 rows.",
+        note="Quantitative claim is stated through q = round(1/min_freq) in 2..10; frequencies compared as one float division (F3/F4). A fitted bucket that holds no training row counts as a bucket with 0 rows. O9.6: a value holding >= min_freq of the rows is a boundary, for min_freq whose reciprocal is exact / rounds up / rounds down (the last case is the open finding KF-C09-1).",
         technique=TECH,
     ),
 
@@ -59,14 +59,14 @@ CHECKS = [
         property_id="C02",
         text="Same symbolic exploration of the real selection logic as C01 with the bound assertions of C02: number of groups (NaN group included) <= max_n_mod, every group's train/dev share >= min_freq_mod (one float division, as a user computes it), dev ranking agrees, NaN untouched when dropna=False; plus _printer's frequency/target_rate equal their definitions on symbolic tables and min_freq_mod defaults to min_freq/2 for every real min_freq.",
         design_ref="DESIGN.md 6/C02",
-        note="Bounds as C01. The literal statement on transformed frames (label counts after transform) is covered by the API-tier obligations. O2.6: the same IEEE-double lemma as O1.7 (min_freq_mod boundary).",
+        note="Bounds as C01. The literal statement on transformed frames (label counts after transform) is covered by the API-tier obligations. O2.6: the same IEEE-double lemma as O1.7 (min_freq_mod boundary). O2.7: MulticlassCarver with an explicit min_freq_mod (literal statement on every generated column).",
         technique=TECH,
     ),
     dict(
         property_id="C16",
         text="Bounded symbolic model checking of history() and summary(): on every path of the selection-logic exploration the recorded history holds exactly one viable-flagged combination per search and it is the fitted grouping, earlier ones are flagged non-viable, later ones 'Not checked', in decreasing measure order; summary() of quantitative features (symbolic boundaries, all groupings, NaN placements) has one row per fitted group with NaN in its group; summary() of qualitative features partitions the known string values and agrees with transform.",
         design_ref="DESIGN.md 6/C16",
-        note="k<=3/4 modalities for history; m<=4/5 boundaries for summary; qualitative category text concrete.",
+        note="k<=3/4 modalities for history; m<=4/5 boundaries for summary; qualitative category text concrete. O16.6: summary(feature) for feature names contained in one another; O16.7: summary after manual edits.",
         technique=TECH,
     ),
 
@@ -74,7 +74,7 @@ CHECKS = [
         property_id="C07",
         text="Bounded symbolic model checking of fit/transform coherence: complete real fits of BinaryCarver, ContinuousCarver, Discretizer and QuantitativeDiscretizer on a symbolic quantitative column with a qualitative companion and an untouched column: on every path fit_transform == fit+transform, transforming a reversed/re-indexed frame with a solver-chosen row removed gives the corresponding rows, repeated transforms are identical and leave values_orders/labels_per_values unchanged, index/columns kept, non-feature column and the caller's X, y untouched; the transform kernel is additionally checked with symbolic boundaries and symbolic rows (row purity for any pair of reals).",
         design_ref="DESIGN.md 6/C07",
-        note="n=3 (quick)/3-4 (thorough) symbolic rows (+1 NaN row), m<=3/4 boundaries in the kernel; histories of up to three transforms; X_dev/y_dev untouched is asserted in the C11/C12 API harnesses only.",
+        note="n=3 (quick)/3-4 (thorough) symbolic rows (+1 NaN row), m<=3/4 boundaries in the kernel; histories of up to three transforms; X_dev/y_dev untouched is asserted in the C11/C12 API harnesses only. O7.4: MulticlassCarver (fit_transform == fit+transform, repeated / reordered / single-row transforms).",
         technique=TECH,
     ),
 
@@ -90,7 +90,7 @@ CHECKS = [
         property_id="C19",
         text="Bounded exploration of malformed inputs on the real classes: each corruption class of the property (NaN in y, wrong class count in 4 variants, y index shifted, non-DataFrame X / non-Series y in 3 variants, missing column in X / X_dev / at transform, feature in two lists, string in a quantitative column, ordinal value absent from the ranking, second fit on same/different data) is injected at a solver-chosen position/variant for 6 classes, before and after a successful fit: AssertionError and nothing else; a fitted object's values_orders, to_json() and transform are unchanged afterwards. sort_by strings: CrossHair proves every string (<=12 chars) other than the implemented measures is refused with AssertionError by the real constructors.",
         design_ref="DESIGN.md 6/C19",
-        note="Data values are concrete (a fixed valid 12-row sample); the symbolic variables are kind, position, variant and column of the corruption, and the sort_by string. Corruptions not listed in the property are outside the claim.",
+        note="Data values are concrete (a fixed valid 12-row sample); the symbolic variables are kind, position, variant and column of the corruption, and the sort_by string. Corruptions not listed in the property are outside the claim. Includes the second fit of an object whose first fit dropped every feature.",
         technique="solver-chosen fault injection on the real API (symx) + CrossHair on the constructors' sort_by check",
         crosshair=True,
     ),
@@ -99,7 +99,7 @@ CHECKS = [
         property_id="C06",
         text="Bounded symbolic model checking of the JSON round trip: (O6.2) the real values_orders dump/rebuild functions on GroupedLists with symbolic numeric leaders (every grouping, NaN merged/alone, inf leader) restore order and content exactly, with json.dumps/loads as a structural contract stub; (O6.1) CrossHair on the real leaf conversion functions for every string <= 10 chars; (O6.3) for the concrete witness of every explored path of complete fits (BinaryCarver, ContinuousCarver, Discretizer) the real json.dumps/loads + load_carver/load_discretizer give the same transform, summary and re-serialisation; (O6.4) a solver-chosen type/magnitude grid (float64/float32/int64, 1e-8..1e12, negative, str/int/float/mixed categories, NaN).",
         design_ref="DESIGN.md 6/C06",
-        note="O6.3/O6.4 are witness-based (one concrete model per explored path / grid point), reported under traces_validated_against_impl. Trusted: float(repr(x)) == x and json's str(key) for dict keys. One open known finding KF-C06-1 (category named 'numpy.inf').",
+        note="O6.3/O6.4 are witness-based (one concrete model per explored path / grid point), reported under traces_validated_against_impl. Trusted: float(repr(x)) == x and json's str(key) for dict keys. One open known finding KF-C06-1 (category named 'numpy.inf'). O6.4 also holds numeric-valued categories in native numeric columns (numpy scalars before, Python numbers after a reload).",
         technique=TECH + "; CrossHair for string leaves",
         crosshair=True,
     ),
@@ -107,7 +107,7 @@ CHECKS = [
         property_id="C10",
         text="Bounded symbolic model checking of feature independence and schedule independence: complete real fits (BinaryCarver, Discretizer[, ContinuousCarver]) of a symbolic quantitative feature alone, together with quantitative/qualitative/numeric-valued companions, with reordered feature lists and DataFrame columns, under every solver-chosen iteration order of set(features) (all hash seeds) and with n_jobs in {2,3} through an in-process pool that pickles arguments/results and returns them in every solver-chosen completion order: values_orders['f'] and transform output are identical on every path; parallel == sequential for all features.",
         design_ref="DESIGN.md 6/C10",
-        note="Real OS processes are outside the claim: only the order effects of hashing and scheduling are modelled, under the assumption (true for multiprocessing.Pool) that workers share no memory with the parent. n=3 (quick)/3-4 symbolic rows. Companions include int64- and float32-coded qualitative features (dtype promotion across features).",
+        note="Real OS processes are outside the claim: only the order effects of hashing and scheduling are modelled, under the assumption (true for multiprocessing.Pool) that workers share no memory with the parent. n=3 (quick)/3-4 symbolic rows. Companions include int64- and float32-coded qualitative features (dtype promotion across features). O10.2: MulticlassCarver on feature names 'a' and 'a_2' under every iteration order of set(features).",
         technique=TECH + "; schedules and hash orders as solver-chosen permutations",
     ),
     dict(
@@ -121,14 +121,14 @@ CHECKS = [
         property_id="C17",
         text="Bounded symbolic model checking of update_discretizer: fitted objects built from GroupedLists (quantitative: symbolic boundaries, every initial grouping, NaN absent/alone; qualitative: 4 concrete configurations incl. numeric members and NaN), sequences of up to 2 (quick)/3 solver-chosen edits (group adjacent groups in both directions, any groups for categorical features, NaN into a group, replace by a new name); after every edit the real transform of symbolic / exhaustive probe rows agrees with a reference model of the partition, float labels are group ranks, values_orders, labels_per_values and summary agree; JSON round trip after edits on concrete witnesses.",
         design_ref="DESIGN.md 6/C17",
-        note="m<=3/4 boundaries; 'replace' of a quantitative upper bound is not exercised (it would change the interval, not only rename it).",
+        note="m<=3/4 boundaries; 'replace' of a quantitative upper bound is not exercised (it would change the interval, not only rename it). Includes grouping NaN on a feature that had no missing value at fit.",
         technique=TECH,
     ),
     dict(
         property_id="C18",
         text="Bounded symbolic model checking of ChainedDiscretizer: real __init__/_prepare_data/fit/transform on 4 hierarchies (1-3 levels, uneven fan-out) with solver-chosen per-leaf counts (0 = never observed), NaN and unknown rows, both unknown_handling policies and min_freq any real in (0,0.5]: every known value remains present exactly once; groups equal the bottom-up accumulation along the hierarchy (own modality iff share >= min_freq, otherwise merged into the ancestor, recursively); unknown values raise or join NaN; transform outputs each value's leader.",
         design_ref="DESIGN.md 6/C18",
-        note="N<=6 (quick)/10 rows; hierarchies deeper than 3 levels or wider than 5 leaves and intermediate values appearing as raw data are outside the claim.",
+        note="N<=6 (quick)/10 rows; hierarchies deeper than 3 levels or wider than 5 leaves and intermediate values appearing as raw data are outside the claim. Includes a numeric-coded hierarchy with an unknown number.",
         technique=TECH,
     ),
 
@@ -136,14 +136,14 @@ CHECKS = [
         property_id="C14",
         text="Bounded symbolic model checking of the selectors: the real select/_select_features/apply_measures/make_measure/apply_filters/thresh_filter/quantitative_filter/qualitative_filter run with one symbolic association value per feature (user-supplied measure through the public API), a symbolic inter-feature correlation matrix (DataFrame subclass whose corr() is symbolic; symmetric symbolic pairwise association for the qualitative filter) and a symbolic thresh_corr: z3 proves on every path that the result is distinct, ordered by decreasing measure, <= n_best, pairwise association <= thresh_corr, and that a feature is left out only for one of the three allowed reasons. Statistics (V, T, H with missing rows removed, Spearman/Pearson filter values) equal an independent scipy recomputation on solver-chosen small samples; lists of several association measures are exercised at API level.",
         design_ref="DESIGN.md 6/C14",
-        note="m<=3 (quick)/4 features per type; colsample<1 (random.shuffle) and scipy's own correctness are outside the claim; X, y untouched is asserted on every path.",
+        note="m<=3 (quick)/4 features per type; colsample<1 (random.shuffle) and scipy's own correctness are outside the claim; X, y untouched is asserted on every path. O14.4 places missing values in both arguments of the chi2-based measures (pairwise-complete recomputation).",
         technique=TECH,
     ),
     dict(
         property_id="C15",
         text="Bounded symbolic, relational model checking of selector invariances: RegressionSelector with its default measures is run on symbolic target correlations r_i (scipy's correlation distance stubbed by its contract 1-r, 1+r after negation; Spearman matrix with sign flips) before and after negating a solver-chosen subset of features: the selections must be equal and an exact copy of the target (r=1) must be selected; both selectors are run on real data with the real statistics under a solver-chosen re-encoding (positive rescaling, negation for rank-based measures, category renaming, row permutation, column rotation).",
         design_ref="DESIGN.md 6/C15",
-        note="Two open known findings (KF-C15-1 negation changes RegressionSelector's selection; KF-C15-2 exact copy of the target dropped), both confirmed on real data. m<=3/4 features in the relational obligation; the statistics' own invariances (rank statistics under monotone maps) are properties of scipy and are exercised, not proved.",
+        note="Two open known findings (KF-C15-1 negation changes RegressionSelector's selection; KF-C15-2 exact copy of the target dropped), both confirmed on real data. m<=3/4 features in the relational obligation; the statistics' own invariances (rank statistics under monotone maps) are properties of scipy and are exercised, not proved. Rescaling factors range over powers of two from 2^-40 to 2^40.",
         technique=TECH + "; relational (two-run) path conditions",
     ),
 ]
